@@ -247,6 +247,65 @@ example (e : CEnv) : ∀ fmt ∈ [['%','d','%','m','%','Y','%','H','%','M','%','
   · exact ⟨[.dir 'd', .lit '.', .dir 'm', .lit '.', .dir 'Y'],
       by simp [compileFmt, numDirectives, Except.map, hdot], by decide⟩
 
+/-- the format most often used with a blank, `%Y-%m-%d %H:%M:%S`: the white-space run of the format
+(`\\s+` in `_strptime`'s regular expression) takes the written blank -/
+def fmtDateTimeSp : Str := fmtDate ++ ' ' :: fmtTime
+
+theorem datetime_space_format_rt (e : CEnv) (y m d h mi sec : Nat) (hy1 : 1 ≤ y) (hy2 : y ≤ 9999)
+    (hv : validateDate y m d = true) (hh : h ≤ 23) (hmi : mi ≤ 59) (hs : sec ≤ 59) :
+    atomSerialize (.pyDateTime ⟨y, m, d, h, mi, sec, 0⟩) { format := some fmtDateTimeSp } =
+      .ok (zpadInt (y : Int) 4 ++ '-' :: (two m ++ '-' :: (two d ++ ' ' :: (two h ++ ':' :: (two mi ++ ':' ::
+        two sec)))), none) ∧
+    atomDeserialize e .pyDateTime
+        (zpadInt (y : Int) 4 ++ '-' :: (two m ++ '-' :: (two d ++ ' ' :: (two h ++ ':' :: (two mi ++ ':' ::
+          two sec)))))
+        { format := some fmtDateTimeSp } = some (.pyDateTime ⟨y, m, d, h, mi, sec, 0⟩) := by
+  obtain ⟨hm1, hm2, hd1, hd2⟩ := valid_date_bounds y m d hv
+  obtain ⟨hdash, hcolon, _⟩ := dash_colon_T_not_space e.toEnv
+  have hsp : e.toEnv.isSpace ' ' = true := by rw [isSpace_ascii e.toEnv _ (by decide)]; decide
+  obtain ⟨hyl, hyd, _⟩ := zpad_spec y 4 (by omega) (by omega)
+  constructor
+  · simp [atomSerialize, dtSerialize, fmtDateTimeSp, fmtDate, fmtTime, strftime, zpadInt_two m (by omega),
+      zpadInt_two d (by omega), zpadInt_two h (by omega), zpadInt_two mi (by omega), zpadInt_two sec (by omega)]
+  · have hc : compileFmt e.toEnv fmtDateTimeSp false =
+        .ok [.dir 'Y', .lit '-', .dir 'm', .lit '-', .dir 'd', .ws, .dir 'H', .lit ':', .dir 'M', .lit ':',
+          .dir 'S'] := by
+      simp [fmtDateTimeSp, fmtDate, fmtTime, compileFmt, numDirectives, hdash, hcolon, hsp, Except.map]
+    have hfirst : firstMatch e.toEnv [.dir 'Y', .lit '-', .dir 'm', .lit '-', .dir 'd', .ws, .dir 'H', .lit ':',
+          .dir 'M', .lit ':', .dir 'S']
+        (zpadInt (y : Int) 4 ++ '-' :: (two m ++ '-' :: (two d ++ ' ' :: (two h ++ ':' :: (two mi ++ ':' ::
+          two sec))))) {} =
+        some ((((((({} : TmF).set e.toEnv 'Y' (zpadInt (y : Int) 4)).set e.toEnv 'm' (two m)).set e.toEnv 'd' (two d)).set
+          e.toEnv 'H' (two h)).set e.toEnv 'M' (two mi)).set e.toEnv 'S' (two sec), []) := by
+      apply firstMatch_year e.toEnv _ hyl hyd
+      rw [firstMatch_lit]
+      apply firstMatch_two e.toEnv 'm' (by decide) m (by omega) (by simp [twoOk]; omega)
+      rw [firstMatch_lit]
+      apply firstMatch_two e.toEnv 'd' (by decide) d (by omega) (by simp [twoOk]; omega)
+      apply firstMatch_ws e.toEnv [' '] (by simp) (by intro c hc; simp at hc; subst hc; exact hsp)
+      · intro c r' hcr
+        simp only [two, List.cons_append, List.cons.injEq] at hcr
+        rw [← hcr.1, isSpace_ascii e.toEnv _ (by rw [isAscii, digitChar_toNat _ (by omega)]; simp; omega)]
+        simp [isAsciiSpace, digitChar_toNat _ (show h / 10 < 10 by omega)]; omega
+      apply firstMatch_two e.toEnv 'H' (by decide) h (by omega) (by simp [twoOk]; omega)
+      rw [firstMatch_lit]
+      apply firstMatch_two e.toEnv 'M' (by decide) mi (by omega) (by simp [twoOk]; omega)
+      rw [firstMatch_lit]
+      have := firstMatch_two e.toEnv 'S' (by decide) sec (by omega) (by simp [twoOk]; omega) [] []
+        (((((({} : TmF).set e.toEnv 'Y' (zpadInt (y : Int) 4)).set e.toEnv 'm' (two m)).set e.toEnv 'd' (two d)).set
+          e.toEnv 'H' (two h)).set e.toEnv 'M' (two mi)) _ (firstMatch_nil _ _ _)
+      simpa using this
+    have hstr := strptime_of_first e.toEnv _ fmtDateTimeSp _ _ hc (by decide) hfirst
+    simp only [TmF.set, pyIntC_zpad e.toEnv y 4 (by omega) (by omega), pyIntC_two e.toEnv m (by omega),
+      pyIntC_two e.toEnv d (by omega), pyIntC_two e.toEnv h (by omega), pyIntC_two e.toEnv mi (by omega),
+      pyIntC_two e.toEnv sec (by omega)] at hstr
+    simp only [atomDeserialize, dtParse, hstr]
+    have hy0 : ¬ ((y : Int) < 1) := by omega
+    have hs0 : ¬ ((sec : Int) > 59) := by omega
+    simp [hy0, hs0, hv]
+
+example : validateDate 999 2 28 = true ∧ (23 : Nat) ≤ 23 := by decide
+
 /-- a missing `format` is a `ConverterError` in both directions, for all three types -/
 theorem datetime_needs_format (e : CEnv) (s : Str) (v : PyDT) :
     atomDeserialize e .pyDate s {} = none ∧ atomDeserialize e .pyTime s {} = none ∧
